@@ -652,16 +652,23 @@ KERNEL_GROUPS['KernelsGpo'] = [
     ('var_stats.py', 'clamp_var_stats_collection', 'k_clamp_var_stats_collection', None),
     ('genomic_position_offsets.py', 'GenomicPositionOffsets.__post_init__', 'k_gpo_post_init', 'kgpo'),
     ('genomic_position_offsets.py', 'GenomicPositionOffsets.from_var_stats', 'k_gpo_from_var_stats', 'kgpo'),
+    # array_utils.get_prev_index (a while loop that returns from inside): proved equal to the definition the SEARCH_F table is read with
+    ('array_utils.py', 'get_prev_index', 'k_get_prev_index', None),
     # REF -> ALT (the nearest-position search goes through the SEARCH_F table to two array_utils functions: Model/PyLoop.v u8_prev_index / u8_next_index)
     ('genomic_position_offsets.py', 'GenomicPositionOffsets.ref_to_alt_position', 'k_gpo_ref_to_alt_position', 'kgpo'),
     ('genomic_position_offsets.py', 'GenomicPositionOffsets.ref_to_alt_range', 'k_gpo_ref_to_alt_range', 'kgpo'),
 ]
 KERNEL_BUILTINS = {'KernelsGpo': ('get_u8_array', 'get_prev_index', 'get_next_index')}
+KERNEL_GROUPS['KernelsExons'] = [
+    # UIntRangeSortedList.get_before / get_after: the positions that complete a codon across exon junctions (while loops over the neighbouring exons)
+    ('uint_range.py', 'UIntRangeSortedList.get_before', 'k_exons_get_before', 'list:exon'),
+    ('uint_range.py', 'UIntRangeSortedList.get_after', 'k_exons_get_after', 'list:exon'),
+]
 KERNEL_EXTRA_SOURCES = {'KernelsMave': ['enums.py'], 'KernelsNames': ['enums.py', 'constants.py'], 'KernelsLift': ['enums.py'], 'KernelsGpo': ['enums.py']}
 KERNEL_CONSTS = {'KernelsNames': ('REVCOMP_OLIGO_NAME_SUFFIX',)}
 KERNEL_IMPORTS = {'KernelsTargeton': ' Model.Targeton', 'KernelsMave': ' Model.Seq Model.Vcf Model.Mave Model.PyStr',
                   'KernelsNames': ' Model.Seq Model.Vcf Model.Mave Model.PyStr', 'KernelsLift': ' Model.Seq Model.Vcf Model.Gpo',
-                  'KernelsGpo': ' Model.Seq Model.Vcf Model.Gpo Model.PyStr Model.PyLoop'}
+                  'KernelsGpo': ' Model.Seq Model.Vcf Model.Gpo Model.PyStr Model.PyLoop', 'KernelsExons': ' Model.PyLoop'}
 
 
 def _kernel_extractor(name):
